@@ -210,6 +210,15 @@ def rule_d4(repo, col):
     okx = ex is not None and any(isinstance(x, ast.Call) and dotted(x.func) == "ClauseDB" and any(k.arg == "parent" and norm(k.value) == "self" for k in x.keywords) for x in walk_no_nested(ex.node))
     col.decide("D5", m, ex.node if ex is not None else c.node, okx, "extend() creates a child database with parent=self", "extend() must return ClauseDB(parent=self, ...)",
                construct="def extend", function="ClauseDB.extend")
+    # source_files decides which files consult() skips as "already loaded": it must be a private copy
+    init = c.methods.get("__init__")
+    sf = [st for st in walk_no_nested(init.node) if isinstance(st, ast.Assign) and norm(st.targets[0]) == "self.source_files"]
+    for st in sf:
+        v = norm(st.value)
+        if v.startswith("parent.source_files"):
+            col.decide("D6", m, st, v in ("parent.source_files[:]", "list(parent.source_files)", "parent.source_files.copy()"), "the list of loaded files is copied",
+                       "an extension shares its parent's source_files list: a library consulted in one extension is recorded as loaded in the parent and in every sibling "
+                       "extension, whose own use_module of the same library then loads nothing (UnknownClause for its predicates)", function="ClauseDB.__init__")
     # advisory: line_info aliasing
     init = c.methods.get("__init__")
     for st in walk_no_nested(init.node):
@@ -224,6 +233,7 @@ def run(repo, col):
     col.rule("D3", "_set_node / get_node / __len__ offset discipline")
     col.rule("D4", "self.__parent is only read")
     col.rule("D5", "extend() passes parent=self")
+    col.rule("D6", "per-database bookkeeping (source_files) is copied, not shared")
     rule_d1(repo, col)
     rule_d2(repo, col)
     rule_d3(repo, col)
